@@ -356,6 +356,10 @@ def _key(u, v):
     return (u, v) if u <= v else (v, u)
 
 
+def _skey(u, v):
+    return "%d,%d" % _key(u, v)
+
+
 def model_obs(case, raws):
     r = raws[0]
     if isinstance(r, str):
@@ -364,7 +368,7 @@ def model_obs(case, raws):
         return ["!model-error", r[1]]
     rows = {}
     for u, v, lab in r[2]:
-        rows[_key(u, v)] = lab if lab else None
+        rows[_skey(u, v)] = lab if lab else None
     return {"cover": r[1], "rows": rows}
 
 
@@ -389,7 +393,7 @@ def compare(case, impl_obs, model):
     if impl_obs["extra_attrs"]:
         return "edge attributes other than 'clique' appeared"
     for u, v, lab in impl_obs["rows"]:
-        want = model["rows"].get(_key(u, v))
+        want = model["rows"].get(_skey(u, v))
         if lab != want:
             return f"edge ({u},{v}): implementation label {lab}, model label {want}"
     return None
